@@ -157,7 +157,7 @@ def record(tid, sp):
                         for m in range(a, k):
                             gap = sp.text[sp.tokspans[m][1]:sp.tokspans[m + 1][0]]
                             if d2 == 0 or prog.tokens[m + 1] == 'lp' or prog.tokens[m] == 'rp':
-                                if '/*' in gap or '--' in gap:
+                                if '/*' in gap or '--' in gap or '#' in gap:
                                     cte_comment = True
                             if prog.tokens[m + 1] == 'lp':
                                 d2 += 1
